@@ -30,10 +30,13 @@ from ..engine.arrays import SArray
 from ..engine.lmfit_model import sym_parameters
 
 LEVEL = "other"
-EXPLANATION = ("Deductive: index-range, fallback, first-exceedance, frame and totality clauses of compute_poc, the "
-               "clip and the two closed-form estimators for arrays of any length. Bounded: all six estimators on "
-               "synthetic curves (scale/offset invariance, accuracy within a stated fraction) and degenerate arrays; "
-               "the piecewise fits use Nelder-Mead (external numerics).")
+EXPLANATION = ("Deductive: index-range, fallback (NaN or an estimate outside the data), frame and totality clauses of "
+               "compute_poc with every estimator under the contract 'NaN or some integer'; the clip; totality and "
+               "scale/offset invariance (self-composition) of the two closed-form estimators; the three piecewise "
+               "fits up to and after the optimiser (no 0/0 fed to lmfit.minimize, same optimisation problem for f "
+               "and a*f+b) for arrays of any length. Bounded: all six estimators on synthetic curves (invariance, "
+               "accuracy within a stated fraction) and degenerate arrays; what Nelder-Mead returns and the gradient "
+               "estimator (scipy filters) are external numerics.")
 MOD = "nanite.poc"
 METHODS = ["deviation_from_baseline", "fit_constant_line", "fit_constant_polynomial", "fit_line_polynomial",
            "frechet_direct_path", "gradient_zero_crossing"]
@@ -277,7 +280,7 @@ def replay_relational(ob):
     warnings.simplefilter("ignore")
     fn = poc.poc_deviation_from_baseline if "deviation" in ob.oid else poc.poc_frechet_direct_path
     for f, true_cp, info in _curves(1)[::2]:
-        for a, b in ((2.0, 0.0), (1.0, 5.0), (4.0, -300.0), (0.5, 1e3), (8.0, 1e6)):
+        for a, b in ((2.0, 0.0), (1.0, 5.0), (4.0, -300.0), (0.5, 1e3), (8.0, 1e6), (2.0 ** -60, 0.0), (2.0 ** 60, 0.0)):
             r1, r2 = fn(f), fn(a * f + b)
             if not ((np.isnan(r1) and np.isnan(r2)) or r1 == r2):
                 return {"confirmed": True, "input": {**info, "scale": a, "offset": b},
@@ -626,14 +629,15 @@ def unit_bounded_estimators(tier=None, seed=0):
                 continue
             if info["noise"] == 0 and info["tilt"] == 0 and abs(base - true_cp) > FRACTION[m] * f.size:
                 problems.append({"method": m, **info, "what": f"estimate {base} vs true contact {true_cp}"})
-            for a, b in ((2.0, 0.0), (0.25, 0.0), (1.0, 3.0), (4.0, -2.0), (3.7, 0.5), (1e9, 0.0)):
+            for a, b in ((2.0, 0.0), (0.25, 0.0), (1.0, 3.0), (4.0, -2.0), (3.7, 0.5), (1e9, 0.0),
+                         (2.0 ** -60, 0.0), (2.0 ** 60, 0.0)):
                 try:
                     got = poc.compute_poc(a * f + b, method=m)
                 except Exception as exc:
                     problems.append({"method": m, **info, "scale": a, "offset": b, "what": f"raised {exc!r}"[:100]})
                     continue
                 ne += 1
-                exact = float(a).is_integer() and (int(a) & (int(a) - 1) == 0) or a in (0.25,)
+                exact = (float(a).is_integer() and (int(a) & (int(a) - 1) == 0)) or a in (0.25, 2.0 ** -60)
                 tol = 0 if (exact and m in ("deviation_from_baseline", "frechet_direct_path") and b == 0) else 1
                 if m in ("fit_constant_line", "fit_constant_polynomial", "fit_line_polynomial"):
                     tol = max(tol, 2)      # Nelder-Mead on data normalised to [0, 1]
@@ -652,7 +656,7 @@ def unit_bounded_estimators(tier=None, seed=0):
     res.bounded.append(BoundedResult(
         bid="C08.bounded.six_estimators_scale_offset_accuracy_degenerate", ok=not problems, evaluations=ne, distinct=ne,
         bound=f"6 estimators x {len(curves)} synthetic curves (2 exponents x 3 noise levels x 3 baseline lengths x 2 tilts) x "
-              "6 (scale, offset) pairs + 12 degenerate arrays; accuracy fractions (clean curves) stated in the code",
+              "8 (scale, offset) pairs incl. 2^-60 and 2^60 + 12 degenerate arrays; accuracy fractions (clean curves) stated in the code",
         detail="valid indices; scale/offset independent within one sample (two for the Nelder-Mead fits); accurate on "
                "clean curves; fallback on degenerate arrays" if not problems else str(problems[0])[:300],
         samples=samples, failing_input=problems[0] if problems else None,
